@@ -487,6 +487,10 @@ def run(ctx, only_scripts=None):
                     violations.append(dict(key=t, replay=rp, what=json.dumps(dev[line - 1])[:300]))
         stats["disk_checks"] = len(dev)
         stats["disk_checks_in_reserved_band"] = sum(1 for e in dev if e["mb"] > e["avail_hi"] and e["mb"] < e["free"])
+    if prop == "C04" and only_scripts is None:
+        wv, wstats = config_window(ctx, tier)
+        violations += [v for v in wv if v["key"] not in seen]
+        stats["config_windows_loaded"] = wstats
     if prop in ("C03", "C17") and only_scripts is None:
         lv, lstats = long_files(ctx, tier, prop)
         violations += [v for v in lv if v["key"] not in seen]
@@ -608,6 +612,47 @@ def config_lengths(ctx, tier):
                 rp = vlib.save_replay(ctx, tg.replace(":", "_"), dict(family="proc", property="C03", clause=tg, config=cfgs[e["i"]], observed=e))
                 out.append(dict(key=tg, replay=rp, what=json.dumps(e)[:300]))
     return out, dict(configs=len(cfgs), min_equals_max=sum(1 for (a, b, p) in combos if a == b))
+
+
+def config_window(ctx, tier):
+    """C04's window clause at the daemon's front door: ParseConfig on generated config.toml files with a location and an
+    absolute or sunrise/sunset-relative window; judged by ProcMonTrace.tla (event cfgwindow)."""
+    import subprocess, fam_e2e
+    rng = ctx.sub_rng("fam_proc.9")
+    locs = [("-43.5", "172.5"), ("51.25", "-0.75"), ("-36.875", "174.75"), ("10.5", "-60.25"), ("35.5", "35.5"), ("-12.25", "96.75")]
+    wins = [("-30m", "+30m"), ("+1h", "-1h"), ("-2h30m", "+45m"), ("20:00", "06:00"), ("09:15", "17:45"), ("-15m", "06:30"), ("21:00", "+10m")]
+    combos = [(locs[i % len(locs)], wins[i % len(wins)]) for i in range(7)]
+    for _ in range(5 if tier == "quick" else 120):
+        combos.append((rng.choice(locs), rng.choice(wins)))
+    cfgs = []
+    for ((la, lo), (st, en)) in combos:
+        s = dict(min=1, max=2, preview=1, const=False, throttle=False, motion=dict(fam_e2e.FIXED_MOTION), window=(st, en),
+                 location=dict(lat=la, long=lo, alt="10", acc="3"))
+        cfgs.append(dict(Toml=fam_e2e.toml(s), Start=st, Stop=en, Lat=la, Long=lo))
+    t0 = 1615766820          # 2021-03-15 00:07 UTC
+    instants = [t0 + k * 125 * 60 + (k // 12) * 86400 * 45 for k in range(24)]
+    binp = ctx.go_test_build("./cmd/thermal-recorder", "tr.test")
+    inp, outp = ctx.path("run", "cfgwin.json"), ctx.path("run", "cfgwin.ndjson")
+    json.dump(dict(configs=cfgs, instants=instants), open(inp, "w"))
+    r = subprocess.run([binp, "-test.run", "^TestVerifConfigWindow$"], env=dict(os.environ, VERIF_SCRIPT=inp, VERIF_OUT=outp),
+                       capture_output=True, text=True, timeout=600)
+    if r.returncode != 0 or not os.path.exists(outp):
+        raise vlib.Infra("config-window driver failed: " + (r.stdout + r.stderr)[-2500:])
+    events = vlib.read_ndjson(outp)
+    if len(events) != len(cfgs) or any(len(e["ref"]) != 3 * len(instants) for e in events):
+        raise vlib.Infra("config-window driver: %d results for %d configs" % (len(events), len(cfgs)))
+    viol, nev = judge(ctx, outp, "cfgwinmon")
+    out, seen = [], set()
+    for (line, tags) in viol:
+        for tg in tags:
+            if tg not in seen:
+                seen.add(tg)
+                e = events[line - 1]
+                rp = vlib.save_replay(ctx, tg.replace(":", "_"), dict(family="proc", property="C04", clause=tg, config=cfgs[e["i"]], observed=e))
+                out.append(dict(key=tg, replay=rp, what=json.dumps(e)[:300]))
+    return out, dict(configs=len(cfgs), relative=sum(1 for c in cfgs if c["Start"][0] in "+-" or c["Stop"][0] in "+-"),
+                     instants=len(instants), open_answers=sum(sum(e["ref"][0::3]) for e in events),
+                     closed_answers=sum(len(instants) - sum(e["ref"][0::3]) for e in events))
 
 
 def long_files(ctx, tier, prop):
